@@ -34,6 +34,21 @@ KP = {"DIVIDE": ("/", "NumDivide"), "MULTIPLY": ("*", "NumMultiply"), "SUBTRACT"
       "ADD": ("+", "NumAdd"), "DECIMAL": (".", "NumDecimal"), "EQUALS": ("", ""), "ENTER": ("", "")}
 
 
+def put(path, obj, **kw):
+    """Write JSON atomically, and only when the content changes: checks may run concurrently and read these files while
+    another check regenerates them."""
+    text = json.dumps(obj, **kw)
+    try:
+        if open(path, encoding="utf-8").read() == text:
+            return
+    except OSError:
+        pass
+    tmp = "%s.tmp.%d" % (path, os.getpid())
+    with open(tmp, "w", encoding="utf-8") as f:
+        f.write(text)
+    os.replace(tmp, path)
+
+
 def describe(name):
     """VC_* name -> (ascii char or '', layout entry prefix or '', numpad?)"""
     n = name[3:]
@@ -65,10 +80,10 @@ def main():
     if len(codes) != 111:
         print("gen: expected 111 VC_* codes in riti.h, found %d" % len(codes), file=sys.stderr)
         sys.exit(2)
-    json.dump(codes, open(os.path.join(OUT, "keycodes.json"), "w"), ensure_ascii=False, indent=0)
+    put(os.path.join(OUT, "keycodes.json"), codes, ensure_ascii=False, indent=0)
 
     prob = json.load(open(os.path.join(REPO, "data", "Probhat.json"), encoding="utf-8"))
-    json.dump(prob["layout"], open(os.path.join(OUT, "probhat_layout.json"), "w"), ensure_ascii=False)
+    put(os.path.join(OUT, "probhat_layout.json"), prob["layout"], ensure_ascii=False)
 
     lay = dict(prob["layout"])
     lay["Key_r_AltGr"] = "র্"          # reph
@@ -84,8 +99,8 @@ def main():
     lay["Num5"] = ""                             # empty number-pad assignment
     lay.pop("Num6", None)                        # missing number-pad assignment
     synth = {"info": prob.get("info", {}), "layout": lay}
-    json.dump(synth, open(os.path.join(OUT, "synth.json"), "w"), ensure_ascii=False)
-    json.dump(lay, open(os.path.join(OUT, "synth_layout.json"), "w"), ensure_ascii=False)
+    put(os.path.join(OUT, "synth.json"), synth, ensure_ascii=False)
+    put(os.path.join(OUT, "synth_layout.json"), lay, ensure_ascii=False)
     # a second layout file with the SAME FILE NAME as the bundled one, in another directory, that differs on plain letter keys
     # (C11: "a changed layout switches layout" - also when only the directory differs)
     alt = dict(prob["layout"])
@@ -93,14 +108,13 @@ def main():
         kx, ky = "Key_%s_Normal" % x, "Key_%s_Normal" % y
         alt[kx], alt[ky] = prob["layout"][ky], prob["layout"][kx]
     os.makedirs(os.path.join(OUT, "alt"), exist_ok=True)
-    json.dump({"info": prob.get("info", {}), "layout": alt}, open(os.path.join(OUT, "alt", "Probhat.json"), "w"), ensure_ascii=False)
+    put(os.path.join(OUT, "alt", "Probhat.json"), {"info": prob.get("info", {}), "layout": alt}, ensure_ascii=False)
     # layouts as character sequences (TLA+ cannot take a string apart): {entry: [chars]}
     for name, l in (("probhat", prob["layout"]), ("synth", lay)):
-        json.dump({k: list(v) for k, v in l.items()}, open(os.path.join(OUT, name + "_chars.json"), "w"), ensure_ascii=False)
+        put(os.path.join(OUT, name + "_chars.json"), {k: list(v) for k, v in l.items()}, ensure_ascii=False)
     # suffix table as character sequences (TLA+ cannot take a string apart): [{"key":[..],"val":[..]}]
     suf = json.load(open(os.path.join(REPO, "data", "suffix.json"), encoding="utf-8"))
-    json.dump([{"key": list(k), "val": list(v)} for k, v in sorted(suf.items())],
-              open(os.path.join(OUT, "suffix_chars.json"), "w"), ensure_ascii=False)
+    put(os.path.join(OUT, "suffix_chars.json"), [{"key": list(k), "val": list(v)} for k, v in sorted(suf.items())], ensure_ascii=False)
     print("gen: ok (%d key codes)" % len(codes))
 
 
